@@ -2,11 +2,13 @@
 import re
 
 import scen
+import vplib
 import sx
 from common import ops_of
 from scen import C, e, n, op, scn, src, sub
 
 PID = "C17"
+CONC_MODULE = "C17c"
 ORACLE = "c01"
 MODEL_MUST_NOT = "closure=0"
 RULE = ("pipelines of C02-C04 operators (depth 1-3, multi-source included) over finite cold sources and hot subjects, ended in each of the "
@@ -30,6 +32,14 @@ def classify(sc, ob, verdict):
     return None
 
 
+def keep(rng, p):
+    """now and then observe_on / subscribe_on with a user-defined synchronous scheduler that keeps the job it ran last for as long as
+    the scheduler INSTANCE lives (the job holds the emitted item / the subscribed source): the library must let go of the
+    per-subscription scheduler instance when the subscription ends"""
+    r = rng.random()
+    return op("observe_on_keep", [], p) if r < 0.12 else (op("subscribe_on_keep", [], p) if r < 0.2 else p)
+
+
 def generate(rng, tier, focus):
     thorough = tier == "thorough"
     cases = []
@@ -39,11 +49,11 @@ def generate(rng, tier, focus):
         en = rng.choice(["c", "c", ("e", 5), "s"])
         s0 = scen.script(xs, en)
         s1 = scen.script([rng.choice(ITEMS) for _ in range(rng.randrange(0, 4))], rng.choice(["c", ("e", 7), "s"]))
-        p = scen.rand_chain(rng, ["cold", 0], rng.choice([1, 1, 2]), names=names)
+        p = scen.rand_chain(rng, keep(rng, ["cold", 0]), rng.choice([1, 1, 2]), names=names)
         if rng.random() < 0.4:
             nm = rng.choice(scen.MULTI_NAMES)
             p = scen.multi_op(rng, nm, p, [scen.rand_chain(rng, ["cold", 1], rng.choice([0, 1]), names=names)])
-        p = scen.rand_chain(rng, p, rng.choice([0, 1]), names=names)
+        p = keep(rng, scen.rand_chain(rng, p, rng.choice([0, 1]), names=names))
         reacts = [(rng.randrange(3), ["unsub-self"])] if rng.random() < 0.15 else []
         acts = [sub(0, p, *reacts)]
         if en == "s" or rng.random() < 0.3:
@@ -52,11 +62,11 @@ def generate(rng, tier, focus):
     kinds = [["subject"], ["behavior", 0], ["replay"], ["async"]]
     for _ in range(5000 if thorough else 800):
         subj = [rng.choice(kinds), rng.choice(kinds)]
-        p = scen.rand_chain(rng, ["hot", 0], rng.choice([0, 1, 2]), names=names)
+        p = scen.rand_chain(rng, keep(rng, ["hot", 0]), rng.choice([0, 1, 2]), names=names)
         if rng.random() < 0.5:
             nm = rng.choice(scen.MULTI_NAMES)
             p = scen.multi_op(rng, nm, p, [scen.rand_chain(rng, ["hot", 1], rng.choice([0, 1]), names=names)])
-        p = scen.rand_chain(rng, p, rng.choice([0, 1]), names=names)
+        p = keep(rng, scen.rand_chain(rng, p, rng.choice([0, 1]), names=names))
         acts = [sub(0, p)]
         for _ in range(rng.randrange(1, 7)):
             acts.append(["emit", rng.randrange(2), rng.choice([n(1), n(2), n(3), n(2), C, e(3)])])
@@ -67,6 +77,33 @@ def generate(rng, tier, focus):
         if ending in ("unsub", "both"):
             acts.insert(rng.randrange(1, len(acts) + 1), ["unsub", 0])
         cases.append((scn(subjects=subj, handles=1, script_=acts), {"k": "hot"}))
+    # a chain with operator closures SHARED through ref_count / replay / publish: when the subscribers have gone (and the connection of
+    # publish has been cut or the source has terminated) and the connectable itself is dropped, the shared chain must be released;
+    # also connectables that were never subscribed at all
+    for _ in range(2400 if thorough else 400):
+        kind = rng.choice(["refcount", "refcount", "replay", "replay", "publish"])
+        hot = rng.random() < 0.5
+        shared = scen.rand_chain(rng, ["hot", 0] if hot else ["cold", 0], rng.choice([0, 1, 2]), names=["map", "filter", "scan", "tap", "skip", "take", "start_with", "distinct_until_changed"])
+        nsub = rng.choice([0, 1, 1, 2])
+        acts = []
+        for u in range(nsub):
+            acts.append(sub(u, scen.rand_chain(rng, ["conn", 0], rng.choice([0, 1]), names=["map", "filter", "take", "tap"])))
+        if kind == "publish" and (nsub == 0 or rng.random() < 0.9):
+            acts.insert(rng.randrange(0, len(acts) + 1), ["connect", 0, 0])
+        if hot:
+            for _i in range(rng.randrange(0, 4)):
+                acts.append(["emit", 0, n(rng.choice(ITEMS))])
+        ending = rng.choice(["unsub", "term", "both"]) if hot else rng.choice(["unsub", "none"])
+        if hot and ending in ("term", "both"):
+            acts.append(["emit", 0, rng.choice([C, e(4)])])
+        if ending in ("unsub", "both") or not hot:
+            for u in range(nsub):
+                acts.append(["unsub", u])
+            if kind == "publish" and any(a[0] == "connect" for a in acts):
+                acts.append(["disconnect", 0])
+        xs = [rng.choice(ITEMS) for _ in range(rng.randrange(0, 4))]
+        s0 = scen.script(xs, rng.choice(["c", "c", ("e", 5), "s"]))
+        cases.append((scn(srcs=[src([s0, s0, s0], False)], subjects=[["subject"]], conns=[[kind, shared]], handles=max(nsub, 1), script_=acts), {"k": "shared-" + kind}))
     # flat_map whose inner observables churn (three hot inner sources; an older one completes, a newer one is opened while a third
     # is still running), ended by unsubscribe or by an inner error: every inner chain must be released
     for _ in range(1500 if thorough else 250):
@@ -124,3 +161,9 @@ def judge_impl(cases, obs):
         if la != ba or lc != bc:
             out.append((i, "after every subscription ended and all handles were dropped %d item token(s) and %d closure token(s) are still owned by the library" % (la - ba, lc - bc)))
     return out
+
+
+def run(tier, seed):
+    import sys
+    import C17c
+    return vplib.run_both(sys.modules[__name__], C17c, tier, seed)
